@@ -118,6 +118,24 @@ void ob_c18_isclose_shape(const na::ndarray_t<std::array<float,N>,std::array<siz
 {
     if (a.shape_[AX] != b.shape_[AX]) OBLIGE("C18.isclose.ndarray.false_when_shape_differs", !utils::isclose(a,b), R, AX);
 }
+// ndarrays whose shape has a run-time length (std::vector / static_vector): same dimension, one extent differs -> false
+template <class A, size_t AX, long TAG>
+void ob_c18_ndarray_dynshape(const A& a, const A& b)
+{
+    ASSUME(nm::len(a.shape_) == 2 && nm::len(b.shape_) == 2);
+    if (a.shape_[AX] != b.shape_[AX]) OBLIGE("C18.isequal.ndarray.dynamic_shape.false_when_shape_differs", !utils::isequal(a,b), TAG, AX);
+}
+template <class A, long TAG>
+void ob_c18_ndarray_dyndim(const A& a, const A& b)
+{
+    if (nm::len(a.shape_) != nm::len(b.shape_)) OBLIGE("C18.isequal.ndarray.dynamic_shape.false_when_dim_differs", !utils::isequal(a,b), TAG);
+}
+template <class A, size_t AX, long TAG>
+void ob_c18_isclose_dynshape(const A& a, const A& b)
+{
+    ASSUME(nm::len(a.shape_) == 2 && nm::len(b.shape_) == 2);
+    if (a.shape_[AX] != b.shape_[AX]) OBLIGE("C18.isclose.ndarray.dynamic_shape.false_when_shape_differs", !utils::isclose(a,b), TAG, AX);
+}
 // isclose on scalars: |a-b| < eps
 void ob_c18_isclose_scalar(float a, float b, float eps)
 {
@@ -149,3 +167,10 @@ template void ob_c18_ndarray_shape<int,24,2,1>(const na::ndarray_t<std::array<in
 template void ob_c18_ndarray_shape<int,24,3,1>(const na::ndarray_t<std::array<int,24>,std::array<size_t,3>>&, const na::ndarray_t<std::array<int,24>,std::array<size_t,3>>&);
 template void ob_c18_isclose_shape<24,2,0>(const na::ndarray_t<std::array<float,24>,std::array<size_t,2>>&, const na::ndarray_t<std::array<float,24>,std::array<size_t,2>>&);
 template void ob_c18_isclose_shape<24,2,1>(const na::ndarray_t<std::array<float,24>,std::array<size_t,2>>&, const na::ndarray_t<std::array<float,24>,std::array<size_t,2>>&);
+
+using dyn_i  = na::ndarray_t<std::vector<int>, std::vector<size_t>>;
+using dyn_f  = na::ndarray_t<std::vector<float>, std::vector<size_t>>;
+using hyb_i  = na::ndarray_t<std::array<int,24>, nmtools::utl::static_vector<size_t,4>>;
+// (extent mismatch with run-time-length shapes is not dischargeable - loops over len(shape); decided by rule R-EQSHAPE on the CFG instead)
+template void ob_c18_ndarray_dyndim<dyn_i,0>(const dyn_i&, const dyn_i&);
+template void ob_c18_ndarray_dyndim<hyb_i,1>(const hyb_i&, const hyb_i&);
